@@ -34,7 +34,7 @@ from .. import gen, impl, oracle, ser
 
 ID = "C07"
 LEVEL = "proof"
-PROPS_MODULE = "SymmModel.Props.C07All8"
+PROPS_MODULE = "SymmModel.Props.C07All9"
 THEOREMS = [
     "SymmModel.C07.plan_certificate_sound",
     "SymmModel.C07.plan_certificate_size",
@@ -145,9 +145,18 @@ THEOREMS = [
     "SymmModel.C07.reshape_roundtrip_fermionic_fused_items_exact",
     "SymmModel.C07.reshape_roundtrip_abelian_fused_items_exact",
     "SymmModel.C07.reshape_mergeDrop_roundtrip_fermionic_fused_exact",
-    "SymmModel.C07.reshape_mergeDrop_roundtrip_abelian_fused_exact"
+    "SymmModel.C07.reshape_mergeDrop_roundtrip_abelian_fused_exact",
+    "SymmModel.C07.reshape_forward_elem_abelian_calls",
+    "SymmModel.C07.reshape_forward_elem_abelian_items",
+    "SymmModel.C07.reshape_forward_elem_abelian_mergeDrop",
+    "SymmModel.C07.reshape_stored_sector_has_source_abelian",
+    "SymmModel.C07.fuse_stored_sector_has_source_abelian",
+    "SymmModel.C07.reshape_block_not_all_zero_filled_abelian",
+    "SymmModel.C07.reshape_stored_sector_has_source_fermionic",
+    "SymmModel.C07.fuse_stored_sector_has_source_fermionic",
+    "SymmModel.C07.reshape_block_not_all_zero_filled_fermionic"
 ]
-LEAN_FILES = ["SymmModel.Model.ReshapePlan", "SymmModel.Model.Reshape", "SymmModel.Driver.ReshapeH", "SymmModel.Proofs.C07", "SymmModel.Proofs.C07T4", "SymmModel.Proofs.C07T5_1", "SymmModel.Proofs.C07T5_2", "SymmModel.Proofs.C07T5_3", "SymmModel.Proofs.C07T5_4", "SymmModel.Proofs.C07T5_6", "SymmModel.Props.C07", "SymmModel.Props.C07b", "SymmModel.Props.C07All", "SymmModel.Proofs.ReshapeMore", "SymmModel.Proofs.Reshape3a", "SymmModel.Proofs.Reshape3b", "SymmModel.Proofs.Reshape3c", "SymmModel.Proofs.Reshape3d", "SymmModel.Proofs.Reshape3e", "SymmModel.Proofs.Reshape3f", "SymmModel.Proofs.Reshape3g", "SymmModel.Proofs.Reshape3h", "SymmModel.Proofs.Reshape3i", "SymmModel.Proofs.Reshape3j", "SymmModel.Props.C07c", "SymmModel.Props.C07All2", "SymmModel.Proofs.Reshape4a", "SymmModel.Proofs.Reshape4b", "SymmModel.Proofs.Reshape4c", "SymmModel.Proofs.Reshape4d", "SymmModel.Proofs.Reshape4e", "SymmModel.Proofs.Reshape4f", "SymmModel.Proofs.Reshape4g", "SymmModel.Props.C07d", "SymmModel.Props.C07All3", "SymmModel.Proofs.Reshape5a", "SymmModel.Proofs.Reshape5b", "SymmModel.Proofs.Reshape5c", "SymmModel.Proofs.Reshape5d", "SymmModel.Proofs.Reshape5e", "SymmModel.Proofs.Reshape5f", "SymmModel.Proofs.Reshape5g", "SymmModel.Props.C07e", "SymmModel.Props.C07All4", "SymmModel.Proofs.Reshape6a", "SymmModel.Proofs.Reshape6b", "SymmModel.Proofs.Reshape6c", "SymmModel.Proofs.Reshape6d", "SymmModel.Proofs.Reshape6e", "SymmModel.Proofs.Reshape6f", "SymmModel.Props.C07f", "SymmModel.Props.C07All5", "SymmModel.Proofs.Reshape7a", "SymmModel.Proofs.Reshape7b", "SymmModel.Proofs.Reshape7c", "SymmModel.Props.C07g", "SymmModel.Props.C07All6", "SymmModel.Proofs.ReshapeHa", "SymmModel.Proofs.ReshapeHb", "SymmModel.Proofs.ReshapeHc", "SymmModel.Proofs.ReshapeHd", "SymmModel.Props.C07h", "SymmModel.Props.C07i", "SymmModel.Proofs.ReshapeIa", "SymmModel.Proofs.ReshapeIb", "SymmModel.Proofs.ReshapeIc", "SymmModel.Proofs.ReshapeId", "SymmModel.Proofs.ReshapeIe", "SymmModel.Proofs.ReshapeIf", "SymmModel.Proofs.ReshapeIg", "SymmModel.Proofs.ReshapeIh"]
+LEAN_FILES = ["SymmModel.Model.ReshapePlan", "SymmModel.Model.Reshape", "SymmModel.Driver.ReshapeH", "SymmModel.Proofs.C07", "SymmModel.Proofs.C07T4", "SymmModel.Proofs.C07T5_1", "SymmModel.Proofs.C07T5_2", "SymmModel.Proofs.C07T5_3", "SymmModel.Proofs.C07T5_4", "SymmModel.Proofs.C07T5_6", "SymmModel.Props.C07", "SymmModel.Props.C07b", "SymmModel.Props.C07All", "SymmModel.Proofs.ReshapeMore", "SymmModel.Proofs.Reshape3a", "SymmModel.Proofs.Reshape3b", "SymmModel.Proofs.Reshape3c", "SymmModel.Proofs.Reshape3d", "SymmModel.Proofs.Reshape3e", "SymmModel.Proofs.Reshape3f", "SymmModel.Proofs.Reshape3g", "SymmModel.Proofs.Reshape3h", "SymmModel.Proofs.Reshape3i", "SymmModel.Proofs.Reshape3j", "SymmModel.Props.C07c", "SymmModel.Props.C07All2", "SymmModel.Proofs.Reshape4a", "SymmModel.Proofs.Reshape4b", "SymmModel.Proofs.Reshape4c", "SymmModel.Proofs.Reshape4d", "SymmModel.Proofs.Reshape4e", "SymmModel.Proofs.Reshape4f", "SymmModel.Proofs.Reshape4g", "SymmModel.Props.C07d", "SymmModel.Props.C07All3", "SymmModel.Proofs.Reshape5a", "SymmModel.Proofs.Reshape5b", "SymmModel.Proofs.Reshape5c", "SymmModel.Proofs.Reshape5d", "SymmModel.Proofs.Reshape5e", "SymmModel.Proofs.Reshape5f", "SymmModel.Proofs.Reshape5g", "SymmModel.Props.C07e", "SymmModel.Props.C07All4", "SymmModel.Proofs.Reshape6a", "SymmModel.Proofs.Reshape6b", "SymmModel.Proofs.Reshape6c", "SymmModel.Proofs.Reshape6d", "SymmModel.Proofs.Reshape6e", "SymmModel.Proofs.Reshape6f", "SymmModel.Props.C07f", "SymmModel.Props.C07All5", "SymmModel.Proofs.Reshape7a", "SymmModel.Proofs.Reshape7b", "SymmModel.Proofs.Reshape7c", "SymmModel.Props.C07g", "SymmModel.Props.C07All6", "SymmModel.Proofs.ReshapeHa", "SymmModel.Proofs.ReshapeHb", "SymmModel.Proofs.ReshapeHc", "SymmModel.Proofs.ReshapeHd", "SymmModel.Props.C07h", "SymmModel.Props.C07i", "SymmModel.Proofs.ReshapeIa", "SymmModel.Proofs.ReshapeIb", "SymmModel.Proofs.ReshapeIc", "SymmModel.Proofs.ReshapeId", "SymmModel.Proofs.ReshapeIe", "SymmModel.Proofs.ReshapeIf", "SymmModel.Proofs.ReshapeIg", "SymmModel.Proofs.ReshapeIh", "SymmModel.Props.C07j", "SymmModel.Proofs.ReshapeJa", "SymmModel.Proofs.ReshapeJb", "SymmModel.Proofs.ReshapeJc"]
 RULE = (
     "planner: the whole stated domain on every run (exhaustive, both directions) plus a seeded "
     "random extension; arrays: random sparse abelian/fermionic arrays (<= 4 axes, block sizes "
@@ -167,7 +176,7 @@ ASSUMPTIONS = [
     "newshape entries that are still negative after find_full_reshape are outside the model (never generated)",
     "the kernel-checked planner table speaks about symbolic (dense-product) shapes; sparse arrays, whose fused sizes shrink, are covered by the per-call certificate check (monitor) and the array stream",
 ]
-PLANNED = ["round trip for fused inputs whose sub-sizes DO match a window the planner visits (= known finding reshape-fused-window-match", "excluded by the decidable, planner-exact conditions noWinVisB / noSelfWinB)", "the abelian forward clause as an element bijection (proved for fermionic arrays: reshape_forward_elem_fermionic_*", "abelian: exact-content theorems)"]
+PLANNED = ["round trip for fused inputs whose sub-sizes DO match a window the planner visits (= known finding reshape-fused-window-match", "excluded by the decidable, planner-exact conditions noWinVisB / noSelfWinB)", "restricting the way-back condition to the axes the way out keeps"]
 TRUSTED_EXTRA = [
     "the Python enumeration of merge/drop targets equals the Lean enumeration `targets` (compared on every run for all 3 905 shapes)",
 ]
